@@ -97,6 +97,7 @@ class ControlFlowTransformer(converter.Base):
     """
     return templates.replace(
         template,
+        vars_=self.ctx.namer.new_symbol('vars_', ()),
         nonlocal_declarations=nonlocal_declarations,
         getter_name=getter_name,
         guarded_state_vars=guarded_block_vars,
